@@ -375,6 +375,100 @@ fn make_case_s(picks: &[usize], extras: Extras, mailbox: Mailbox, early: u32, bo
     }
 }
 
+/// The service registry is a strong holder like any other: an instance handed to it - by
+/// `register()` or by `replace()`, over nothing, over a live or over a dead entry - lives on after
+/// the caller has given its own handle away, until it is unregistered; then it drains and stops.
+struct RegistryHolds {
+    /// 0 = replace(), 1 = register()
+    via: u8,
+    /// what is registered before: 0 nothing, 1 an instance that has ended, 2 (replace only) a live one
+    before: u8,
+}
+
+impl Scene for RegistryHolds {
+    fn roles(&self) -> Vec<RoleCfg> {
+        vec![RoleCfg::default(), RoleCfg::default()]
+    }
+    fn pre(&self) {
+        use futures::FutureExt as _;
+        let _ = Addr::<Probe<0>>::unregister().now_or_never();
+    }
+    fn setup(&self, exec: &Exec) {
+        use crate::world::{log, Ask, Ev};
+        use hannibal::prelude::*;
+        let (via, before) = (self.via, self.before);
+        exec.spawn_client(0, async move {
+            let step = |i: u16, r: Res| log(Ev::End { c: 0, i, r });
+            log(Ev::Begin { c: 0, i: 0 });
+            let mut earlier = None;
+            if before > 0 {
+                let mut first = Probe::<0>::new(1).spawn();
+                let _ = first.clone().register().await;
+                if before == 1 {
+                    let _ = first.stop();
+                    let _ = first.clone().await;
+                } else {
+                    earlier = Some(first);
+                }
+            }
+            step(0, Res::Ok);
+            // the instance under test: handed to the registry, nothing else is kept but a weak handle
+            log(Ev::Begin { c: 0, i: 1 });
+            let a = Probe::<0>::new(0).spawn();
+            let w = a.downgrade();
+            let handed = if via == 0 { a.replace().await; true } else { a.register().await.is_ok() };
+            step(1, Res::Bool(handed));
+            log(Ev::Begin { c: 0, i: 2 });
+            crate::world::sleep(2).await;
+            let up = w.upgrade();
+            let answered = match &up {
+                Some(x) => x.call(Ask(41)).await.is_ok(),
+                None => false,
+            };
+            drop(up);
+            step(2, Res::Bool(answered));
+            log(Ev::Begin { c: 0, i: 3 });
+            step(3, Res::OptBool(Probe::<0>::already_running().await));
+            // taken out of the registry (the entry comes back as the last strong handle and is dropped)
+            log(Ev::Begin { c: 0, i: 4 });
+            drop(Addr::<Probe<0>>::unregister().await);
+            crate::world::sleep(2).await;
+            step(4, Res::Bool(w.upgrade().is_some()));
+            drop(earlier);
+        });
+    }
+    fn check(&self, t: &Trace) -> Vec<Violation> {
+        let an = An::new(t.log);
+        let mut out = vec![];
+        let r = |i: u16| an.op(0, i).and_then(|o| o.res);
+        let name = format!("{}/before={}", if self.via == 0 { "replace" } else { "register" }, self.before);
+        crate::check::oblige("strong-keeps-alive");
+        if r(1) == Some(Res::Bool(true)) && (r(2) != Some(Res::Bool(true)) || r(3) != Some(Res::OptBool(Some(true)))) {
+            out.push(Violation {
+                clause: "strong-keeps-alive",
+                key: format!("C05/registry-does-not-keep-alive/{name}"),
+                detail: format!("an instance was handed to the registry and the caller kept only a weak handle: two ticks later upgrade-and-call -> {:?}, already_running -> {:?}", r(2), r(3)),
+            });
+        }
+        if r(1) == Some(Res::Bool(true)) && r(4) == Some(Res::Bool(true)) {
+            out.push(Violation {
+                clause: "last-drop-terminates",
+                key: format!("C05/alive-after-unregister/{name}"),
+                detail: "the instance was unregistered and the entry dropped, yet its weak handle still upgrades two ticks later".into(),
+            });
+        }
+        let stopped = an.exits.iter().any(|e| e.a == 0 && e.cb == Cb::Stopped);
+        if r(4).is_some() && !stopped && r(1) == Some(Res::Bool(true)) {
+            out.push(Violation {
+                clause: "last-drop-terminates",
+                key: format!("C05/no-graceful-end-after-unregister/{name}"),
+                detail: "after unregister and drop of the entry the instance did not run stopped()".into(),
+            });
+        }
+        out
+    }
+}
+
 fn base_cases(tier: Tier) -> Vec<Case> {
     let mut v = vec![];
     let n = scripts().len();
@@ -465,6 +559,14 @@ fn cases(tier: Tier) -> Vec<Case> {
         c
     }));
     CTX_MADE.with(|c| c.set(false));
+    for (via, before) in [(0u8, 0u8), (0, 1), (0, 2), (1, 0), (1, 1)] {
+        v.push(Case {
+            desc: format!("lifetime [held by the registry only] handed over by {} before={before}", if via == 0 { "replace()" } else { "register()" }),
+            exec: ExecCfg { horizon: 30, ..ExecCfg::default() },
+            bound: None,
+            scene: Box::new(RegistryHolds { via, before }),
+        });
+    }
     // "a parent's child list" is a strong holder like any other: a child held by nothing else
     // lives through a restart of its parent (the tree scenes of C16, reporting under C05)
     {
